@@ -26,7 +26,7 @@ class Obl:
     def __init__(self, name, harness, desc, real=(), defs=(), unwind=None, unwindset=(), flags=(),
                  tiers=("quick", "thorough"), timeout=None, mem_gb=None, entry="main", encodes=(),
                  bounds="", symbolic="", hooks=False, kind="cbmc", pyfunc=None, no_std=(),
-                 backend=None, object_bits=None):
+                 backend=None, object_bits=None, twin_defs=None):
         self.name = name
         self.harness = harness          # path relative to /verif/harness
         self.desc = desc
@@ -48,6 +48,7 @@ class Obl:
         self.no_std = list(no_std)
         self.backend = backend
         self.object_bits = object_bits
+        self.twin_defs = twin_defs      # extra -D for a reachability twin (second build + run); its WITNESS must be reached
 
 
 def sh(cmd, timeout=None, mem_gb=None, cwd=None):
@@ -194,7 +195,7 @@ def reachable_functions(gb, entry):
     return sorted(f for f in fns if not f.startswith("__CPROVER"))
 
 
-def run_obligation(prop, o, tier, workdir):
+def _run_one(prop, o, tier, workdir):
     """returns a result dict"""
     r = {"name": o.name, "desc": o.desc, "bounds": o.bounds, "symbolic": o.symbolic, "encodes": o.encodes,
          "status": "INCONCLUSIVE", "why": "", "props": 0, "props_ok": 0, "witnesses": 0, "witnesses_reached": 0,
@@ -260,6 +261,29 @@ def run_obligation(prop, o, tier, workdir):
     else:
         r["status"] = "SUCCESS"
     r["wall_s"] = round(time.time() - t0, 2)
+    return r
+
+
+def run_obligation(prop, o, tier, workdir):
+    r = _run_one(prop, o, tier, workdir)
+    if not o.twin_defs or r["status"] not in ("SUCCESS", "VACUOUS"):
+        return r
+    import copy
+    t = copy.copy(o)
+    t.name = o.name + "__twin"; t.defs = o.defs + list(o.twin_defs); t.twin_defs = None
+    rt = _run_one(prop, t, tier, workdir)
+    # merge: all real properties of both runs must hold; witnesses of either run count
+    for k in ("props", "props_ok", "witnesses", "witnesses_reached", "solver_s", "symex_s", "wall_s"):
+        r[k] = r.get(k, 0) + rt.get(k, 0)
+    r["cmd"] += "  ||  twin(-D" + ",-D".join(o.twin_defs) + ")"
+    if rt["status"] == "FAILURE":
+        r["status"] = "FAILURE"; r["failed"] = rt["failed"]; r["trace"] = rt.get("trace", "")
+    elif rt["status"] != "SUCCESS":
+        r["status"] = rt["status"]; r["why"] = "twin: " + rt["why"]
+    elif r["status"] == "VACUOUS" and r["witnesses"] > 0 and r["witnesses_reached"] == r["witnesses"]:
+        r["status"] = "SUCCESS"; r["why"] = ""
+    elif r["status"] == "VACUOUS" and "no reachability witness" in r["why"]:
+        r["status"] = "SUCCESS"; r["why"] = ""
     return r
 
 
